@@ -241,6 +241,12 @@ def Stmt.pretty (st : Stmt) (p : Params) (col : Option Nat) (fs : Nat) : Except 
 
 def future : Str := "__future__".toList
 
+/-- duplicate-free copy of a list (a Python `set` / the keys of a `dict`; the order is irrelevant
+    because every use sorts afterwards) -/
+def dedup {α} [DecidableEq α] : List α → List α
+  | [] => []
+  | a :: as => if a ∈ as then dedup as else a :: dedup as
+
 /-- insertion sort (`sorted(...)`; the keys sorted here are pairwise distinct, so stability is moot) -/
 def insertBy {α} (le : α → α → Bool) (a : α) : List α → List α
   | [] => [a]
@@ -293,7 +299,7 @@ def groupStmts (g : List Imp) : Except Err (List Stmt) := do
 
 /-- `ImportSet.get_statements(separate_from_imports)`; `S` is the duplicate-free `_importset`. -/
 def getStatements (S : List Imp) (sepFrom : Bool) : Except Err (List Stmt) := do
-  let keys := isort gkLe ((S.map (gkeyOf sepFrom)).eraseDups)
+  let keys := isort gkLe (dedup (S.map (gkeyOf sepFrom)))
   let groups ← keys.mapM fun k => groupStmts (S.filter fun i => gkeyOf sepFrom i = k)
   pure groups.flatten
 
@@ -349,7 +355,7 @@ def importColumn (stmts : List Stmt) (p : Params) (fs : Nat) : Except Err (Optio
 
 /-- `ImportSet(imports).pretty_print(params)` -/
 def pretty (imps : List Imp) (p : Params) : Except Err Str := do
-  let S := imps.eraseDups
+  let S := dedup imps
   if conflicting S then throw .conflicting
   let fs := max 1 p.fromSpaces
   let stmts ← getStatements S p.sepFrom
